@@ -949,7 +949,7 @@ def literal_value(node: ast.AST) -> bool:
 
 
 def _literal_value(node: ast.AST) -> bool:
-    if has_side_effect(node, safe_callable_whitelist=constants.BUILTIN_FUNCTIONS):
+    if has_side_effect(node, safe_callable_whitelist=constants.PURE_BUILTIN_FUNCTIONS):
         raise ValueError("Cannot find a deterministic value for a node with a side effect")
 
     if match_template(
@@ -1002,7 +1002,7 @@ def _literal_value(node: ast.AST) -> bool:
         if node.keywords or any(isinstance(arg, ast.Starred) for arg in node.args):
             raise ValueError("Cannot find a deterministic value for a call with keywords or *args")
 
-        if isinstance(node.func, ast.Name) and node.func.id in constants.BUILTIN_FUNCTIONS:
+        if isinstance(node.func, ast.Name) and node.func.id in constants.PURE_BUILTIN_FUNCTIONS:
             args = [literal_value(arg) for arg in node.args]
             return getattr(builtins, node.func.id)(*args)
 
